@@ -23,8 +23,17 @@ def render_class(name, c, names):
         if state != "none":
             L.append("%s:" % ACC[acc])
             L.append("  " + decl + SUFFIX[state])
-    sm(c["dc"], c["dcacc"], "%s()" % name)
-    sm(c["cc"], c["ccacc"], "%s(const %s &)" % (name, name))
+    # spellings of a user-provided default / copy constructor (same meaning to C++): plain, explicit,
+    # all parameters defaulted, extra defaulted parameter after the const reference
+    v = sum(ord(ch) for ch in name) % 4
+    dform = "%s()" % name
+    if c["dc"] == "user":
+        dform = ["%s()", "explicit %s()", "%s(int x = 0)", "%s(int x = 0, ...)"][v] % name
+    cform = "%s(const %s &)" % (name, name)
+    if c["cc"] == "user":
+        cform = ["%s(const %s &)", "%s(const %s &, int x = 0)", "%s(const %s &other)", "explicit %s(const %s &)"][v] % (name, name)
+    sm(c["dc"], c["dcacc"], dform)
+    sm(c["cc"], c["ccacc"], cform)
     if c["mc"] != "none":
         L.append("public:")
         L.append("  %s(%s &&)%s" % (name, name, SUFFIX[c["mc"]]))
@@ -76,14 +85,23 @@ template<class T> struct CanCopy<T, std::void_t<decltype(new T(std::declval<cons
 
 
 # ---- known-finding classes: predicates over the INPUT hierarchy only --------------------
-def classes_of(rec, k):
-    """Finding classes that class k (0-based) of program rec falls in."""
+def cc_extra_defaults(name, c):
+    """this class's user-provided copy constructor is spelled with an extra defaulted parameter"""
+    return c["cc"] == "user" and sum(ord(ch) for ch in name) % 4 == 1
+
+
+def classes_of(rec, k, i=0):
+    """Finding classes that class k (0-based) of program i falls in (input predicates only)."""
     cs = rec["c"]
-    v = rec["v"]
     out = []
-    c = cs[k]
-    bases = [j for j, r in enumerate(c["rel"]) if r in BASEKW]
-    members = [j for j, r in enumerate(c["rel"]) if r == "member"]
+
+    def reach(j, seen):
+        if cc_extra_defaults("K%d_C%d" % (i, j + 1), cs[j]):
+            return True
+        return any(reach(b, seen | {j}) for b, r in enumerate(cs[j]["rel"])
+                   if (r in BASEKW or r in ("member", "arrmember")) and b not in seen)
+    if reach(k, set()):
+        out.append("C10-copy-ctor-extra-defaults")
     return out
 
 
@@ -256,7 +274,7 @@ def run_check(ctx):
                 distinct.add(json.dumps(rec["c"][:k + 1], sort_keys=True))
                 own_dtor_unusable = rec["c"][k]["dt"] != "none" and (rec["c"][k]["dtacc"] != "pub" or rec["c"][k]["dt"] == "delete")
                 t = res["ig"].get("K%d_%s" % (i, nm))
-                cls = classes_of(rec, k)
+                cls = classes_of(rec, k, i)
                 if t is None:
                     ctx.violation("parse_file -p gave no judgement for K%d_%s" % (i, nm), dict(program=render_case(i, rec)))
                     continue
